@@ -60,6 +60,15 @@ Init == l \in 1..Lanes
 Next == l + Lanes <= N /\ l' = l + Lanes
 Spec == Init /\ [][Next]_l
 
+\* The equality pattern between two values of one run, [v_a = v_b], is a function of the view as well: with kappa fixed
+\* its distribution must not depend on the hidden inputs.  r.pairs lists, for pairs of store values (of at least 8 bytes)
+\* that are equal in every run on one of the two input vectors, <<number of xs runs with v_a = v_b, number of ys runs>>;
+\* <<R, 0>> or <<0, R>> is a pair that always coincides for one input vector and never for the other (probability
+\* p^R (1-p)^R <= 4^(-R) if Private holds): e.g. two openings sigma_j o pi and sigma_(j+1) o pi of a sort that reuses one
+\* shuffle pi coincide exactly when the chunk in between is already in order.
+PairLeaks(r) == IF Judged(r) THEN {i \in 1..Len(r.pairs) : r.pairs[i] = <<r.runs, 0>> \/ r.pairs[i] = <<0, r.runs>>} ELSE {}
+PairLeakFree == l <= N => (PairLeaks(Recs[l]) = {} \/ PrintT(<<"PAIRLEAK", l, PairLeaks(Recs[l])>>))
+
 DetLeakFree == l <= N => (Leaks(Recs[l]) = {} \/ PrintT(<<"LEAK", l, Leaks(Recs[l])>>))
 Stats == l <= N => PrintT(<<"MASKED", l, IF Judged(Recs[l]) THEN Cardinality(Masked(Recs[l])) ELSE -1>>)
 =============================================================================
